@@ -57,6 +57,11 @@ func (r Regime) Validate() error {
 	if r.Country.Empty() {
 		return nil
 	}
+	if err := r.Country.Validate(); err != nil {
+		return validation.Errors{
+			"$regime": err,
+		}
+	}
 	if Regimes().For(r.Country.Code()) == nil {
 		return validation.Errors{
 			"$regime": fmt.Errorf("regime '%v' not defined", r.Country),
